@@ -21,6 +21,16 @@ type Labels struct {
 	Labels []string
 }
 
+// cloneBytes returns a copy of b that keeps b's nil-ness.
+func cloneBytes(b []byte) []byte {
+	if b == nil {
+		return nil
+	}
+	c := make([]byte, len(b))
+	copy(c, b)
+	return c
+}
+
 // same compares two string arrays
 func same(a, b []string) bool {
 	if len(a) != len(b) {
@@ -51,7 +61,8 @@ func (l *Labels) ToBytes() []byte {
 	// if the original object has not been modified, or we cannot parse it,
 	// return the original bytes.
 	if err != nil || (l.original != nil && same(originalLabels, l.Labels)) {
-		return l.original
+		// Return a copy: callers may modify the returned bytes.
+		return cloneBytes(l.original)
 	}
 	return labelsToBytes(l.Labels)
 }
@@ -74,7 +85,8 @@ func (l *Labels) FromBytes(data []byte) error {
 	if err != nil {
 		return err
 	}
-	l.original = data
+	// Keep a private copy: the caller may reuse its buffer.
+	l.original = cloneBytes(data)
 	l.Labels = labs
 	return nil
 }
